@@ -69,7 +69,8 @@ def commented_program(rnd):
     return body
 
 
-PREFIXED = ["#^(+ % 1)", "#^(list % %2)", "#^x", "#'car", "'a", "''a", "'''a", "'(a b)", "''(a (b))", "'[1 2]", "'()", "#^'(a)", "'#^(f %)", "[1 [2]]", "'\"s\"", "-7", "(f 'x)", "1e10", "2.50e-10", "3e0", "100.0", "(g 1.5e20 0.10)"]
+PREFIXED = ["[lisp:function car]", "[lisp:expr %]", "'[lisp:function car]", "(lisp:function car)", "'(lisp:function car)", "'(lisp:expr (+ % 1))", "[quote a]", "'(quote a)", "[lisp:function]",
+            "[lisp:function car cdr]", "(set 'form [lisp:function car])", "'('(lisp:function x))", "#^(+ % 1)", "#^(list % %2)", "#^x", "#'car", "'a", "''a", "'''a", "'(a b)", "''(a (b))", "'[1 2]", "'()", "#^'(a)", "'#^(f %)", "[1 [2]]", "'\"s\"", "-7", "(f 'x)", "1e10", "2.50e-10", "3e0", "100.0", "(g 1.5e20 0.10)"]
 
 
 def prefix_program(rnd):
